@@ -48,6 +48,7 @@ struct WorldCfg {
 	bool always_seqnum_assign = false;
 	std::string dir = ".";
 	std::string fname = "w.db";
+	bool ignore_logon_seq = false;	// the library's own ignore_logon_sequence_check setting, through a real SessionConfig
 };
 
 // one connection life of one session; the persister may outlive it (restart)
@@ -63,6 +64,11 @@ struct World {
 	bool started = false;
 	int start_result = 0;
 	std::string beginstr = "FIX.4.2";
+	std::unique_ptr<SessionConfig> sf;
+	std::vector<std::string> past_got;	// deliveries made to Session objects of earlier connections (acceptor)
+	std::vector<bool> past_got_possdup;
+	std::vector<std::string> delivered() const { std::vector<std::string> d(past_got); if (ses) d.insert(d.end(), ses->rt.got.begin(), ses->rt.got.end()); return d; }
+	std::vector<bool> delivered_possdup() const { std::vector<bool> d(past_got_possdup); if (ses) d.insert(d.end(), ses->rt.got_possdup.begin(), ses->rt.got_possdup.end()); return d; }
 
 	explicit World(const WorldCfg& c) : cfg(c) {}
 	~World() { teardown(); }
@@ -92,6 +98,19 @@ struct World {
 			}
 			conn = new ClientConnection(psock, addr, *ses, cfg.hb, cfg.pm, true, false);
 		}
+		if (cfg.ignore_logon_seq) {
+			if (!sf) {
+				const std::string cf = cfg.dir + "/" + cfg.fname + ".cfg.xml";
+				FILE *f = fopen(cf.c_str(), "w");
+				fprintf(f, "<?xml version='1.0' encoding='ISO-8859-1'?>\n<fix8>\n<session name=\"S1\" role=\"%s\" fix_version=\"4200\" active=\"true\" "
+					"ip=\"127.0.0.1\" port=\"9999\" sender_comp_id=\"%s\" target_comp_id=\"%s\" ignore_logon_sequence_check=\"true\" process_model=\"threaded\" />\n</fix8>\n",
+					cfg.acceptor ? "acceptor" : "initiator", cfg.us.c_str(), cfg.them.c_str());
+				fclose(f);
+				sf.reset(new SessionConfig(UTEST::ctx(), cf, "S1"));
+				::unlink(cf.c_str());
+			}
+			ses->set_session_config(sf.get());
+		}
 		ses->lp()._enforce_compids = cfg.enforce_compids;
 		ses->lp()._reset_sequence_numbers = cfg.reset_seqnum;
 		ses->lp()._always_seqnum_assign = cfg.always_seqnum_assign;
@@ -107,7 +126,11 @@ struct World {
 		delete conn; conn = nullptr;
 		delete psock; psock = nullptr; sock = nullptr;
 		// the acceptor's Session owns its persister, but only deletes it while it still has a connection: do it here
-		if (cfg.acceptor) { delete ses; ses = nullptr; delete persist; persist = nullptr; }
+		if (cfg.acceptor) {
+			past_got.insert(past_got.end(), ses->rt.got.begin(), ses->rt.got.end());
+			past_got_possdup.insert(past_got_possdup.end(), ses->rt.got_possdup.begin(), ses->rt.got_possdup.end());
+			delete ses; ses = nullptr; delete persist; persist = nullptr;
+		}
 	}
 	void teardown()
 	{
@@ -130,9 +153,9 @@ struct World {
 	}
 	bool feed(const std::string& raw) { return ses->process(raw); }	// as the reader thread would
 	std::string inbound(const std::string& type, long seq, const std::string& body, const std::string& extra = "",
-		const char *sender = nullptr, const char *target = nullptr)
+		const char *sender = nullptr, const char *target = nullptr, const std::string& pre34 = "")
 	{
-		Hdr h; h.type = type; h.sender = sender ? sender : cfg.them; h.target = target ? target : cfg.us; h.seq = seq; h.extra = extra;
+		Hdr h; h.pre34 = pre34; h.type = type; h.sender = sender ? sender : cfg.them; h.target = target ? target : cfg.us; h.seq = seq; h.extra = extra;
 		char ts[32]; time_t t = now_s(); struct tm tm; gmtime_r(&t, &tm); strftime(ts, sizeof ts, "%Y%m%d-%H:%M:%S.000", &tm); h.sendtime = ts;
 		return mk(beginstr, h, body);
 	}
